@@ -296,8 +296,14 @@ func DuplicateSignatures(signatures []string) bool {
 }
 
 func HasValidSignatures(hash []byte, signatures []string, Nsigs int, pubkeys []*btcec.PublicKey) bool {
-	pubkeysCopy := make([]*btcec.PublicKey, len(pubkeys))
-	copy(pubkeysCopy, pubkeys)
+	// copy of the public keys without duplicates. A key that
+	// is listed more than once still counts as one signer
+	pubkeysCopy := make([]*btcec.PublicKey, 0, len(pubkeys))
+	for _, pubkey := range pubkeys {
+		if !slices.ContainsFunc(pubkeysCopy, func(pk *btcec.PublicKey) bool { return pk.IsEqual(pubkey) }) {
+			pubkeysCopy = append(pubkeysCopy, pubkey)
+		}
+	}
 
 	validSignatures := 0
 	for _, signature := range signatures {
